@@ -9,6 +9,7 @@
   field, truncated strings) never match and never panic.
 -/
 import LDEval.Proofs.Time
+import LDEval.Proofs.TimeComplete
 import LDEval.Model.Clause
 
 namespace LD.C18
@@ -341,6 +342,33 @@ example : doOp noRx { op := "after", values := [.str "2020-01-02T03:04:05.678+01
     (.bool true) (.str "2020-01-02T03:04:05.678+01:30") 0 = false := by decide +kernel
 
 end Examples
+
+
+/-! ### Completeness: exactly the renderings of valid stamps (plus ignorable trailing bytes) parse -/
+
+/-- The parser as an exact partial function: it returns `t` iff the input is the rendering of a
+valid stamp denoting `t`, followed by bytes it never looks at (anything after `Z`/`z`; after a
+`±hh:mm` offset only a tail starting with a NUL or non-ASCII byte). -/
+theorem parse_exact (inp : List UInt8) (t : Int) :
+    Time.parseBytes inp = some t ↔
+      ∃ (s : Time.Stamp) (junk : List UInt8), s.Valid ∧ inp = s.render ++ junk ∧ Time.Ignorable s.zone junk ∧ t = s.denotes :=
+  Time.parse_eq_some_iff inp t
+
+/-- Strings that are not such a rendering — a missing or garbled mandatory field, a truncation —
+never convert to a timestamp, hence never match (`non_timestamps_never_match`). -/
+theorem garbled_never_parses (inp : List UInt8)
+    (h : ¬ ∃ (s : Time.Stamp) (junk : List UInt8), s.Valid ∧ inp = s.render ++ junk ∧ Time.Ignorable s.zone junk) :
+    Time.parseBytes inp = none :=
+  Time.garbled_never_parses inp h
+
+theorem too_short (inp : List UInt8) (h : inp.length < 19) : Time.parseBytes inp = none :=
+  Time.too_short inp h
+
+/-- The instant is a function of the string. -/
+theorem denotes_unique (s₁ s₂ : Time.Stamp) (j₁ j₂ : List UInt8) (h₁ : s₁.Valid) (h₂ : s₂.Valid)
+    (i₁ : Time.Ignorable s₁.zone j₁) (i₂ : Time.Ignorable s₂.zone j₂)
+    (e : s₁.render ++ j₁ = s₂.render ++ j₂) : s₁.denotes = s₂.denotes :=
+  Time.denotes_unique s₁ s₂ j₁ j₂ h₁ h₂ i₁ i₂ e
 
 end LD.C18
 
